@@ -1,3 +1,21 @@
+mod c09;
+mod enc;
+mod seedgen;
+mod seeds;
+mod semdmg;
+mod targets;
+
+use pvkit::session::CheckDef;
+
+pub fn pvhash(s: &str) -> u64 {
+    pvkit::fnv64(s.as_bytes())
+}
+
 fn main() {
-    pvkit::main(&[]);
+    // isolated probe child (deep nesting / huge lengths): decode one input and exit; must be
+    // checked before pvkit::main, which owns the argument parsing
+    if let Ok(spec) = std::env::var("PV_DECODE_PROBE") {
+        c09::probe_child(&spec);
+    }
+    pvkit::main(&[CheckDef { id: "C09", level: "exploration", run: c09::run }]);
 }
